@@ -64,12 +64,17 @@ Check ==
       voSeq(vo) == [k \in 1..Cardinality(V) |->
                       Name(CHOOSE v \in V : Cardinality({w \in V : vo[w] < vo[v]}) = k - 1)]
       cmpOf(vo) ==
-        LET cyc == CmpCycle(P, L, vo) IN
+        LET cyc == CmpCycle(P, L, vo)
+            lex(i, j) == LexCmp(P, L, B, vo, i, j)
+        IN
         [vo |-> voSeq(vo),
-         c  |-> [k \in 1..Len(PS) |-> <<CmpLimit(cyc, R(PS[k][1]), R(PS[k][2])), CmpLimit(cyc, R(PS[k][2]), R(PS[k][1]))>>],
+         c  |-> [k \in 1..Len(PS) |-> <<lex(R(PS[k][1]), R(PS[k][2])), lex(R(PS[k][2]), R(PS[k][1]))>>],
          sane |-> \A p \in L \X L :
+                    /\ (lex(p[1], p[2]) = "=") <=> (p \in B)
+                    /\ lex(p[2], p[1]) = Flip(lex(p[1], p[2]))
                     /\ (CmpLimit(cyc, p[1], p[2]) = "=") <=> (p \in B)
-                    /\ CmpLimit(cyc, p[2], p[1]) = Flip(CmpLimit(cyc, p[1], p[2]))]
+                    /\ CmpLimit(cyc, p[2], p[1]) = Flip(CmpLimit(cyc, p[1], p[2]))
+                    /\ (lex(p[1], p[2]) # "?" => CmpLimit(cyc, p[1], p[2]) = lex(p[1], p[2]))]
       cmp == {cmpOf(vo) : vo \in Permutations(V)}
       cpOf(i) ==
         LET P2 == CopyGraph(P, R(i), K) r2 == R(i) + K IN
@@ -104,7 +109,7 @@ Check ==
                             = {TermVars(P, p[2])[k] : k \in 1..Len(TermVars(P, p[2]))}
   IN /\ Assert(S1, <<"Bisim is not an equivalence", n, code>>)
      /\ Assert(S2, <<"Acyclic differs from finite unfolding", n, code>>)
-     /\ Assert(S3, <<"compare limit: = iff bisimilar / antisymmetry fails", n, code>>)
+     /\ Assert(S3, <<"compare: = iff bisimilar / antisymmetry / first difference agrees with truncation limit fails", n, code>>)
      /\ Assert(S4, <<"copy is not a fresh variant", n, code>>)
      /\ Assert(S5, <<"unification sanity fails", n, code>>)
      /\ Assert(S6, <<"bisimilar nodes differ in acyclicity or variables", n, code>>)
